@@ -147,3 +147,6 @@ def run(ctx):
     r20_1_2(ctx)
     r20_3(ctx)
     r20_4(ctx)
+    # "the sub-project's duration without its absence steps" is what BaseProject.remove_absence_time_list leaves in project.time
+    from .C18 import check as absence_editors
+    absence_editors(ctx)
